@@ -1358,7 +1358,7 @@ theorem sumStep_fold {N : Type} [NumOps N] (cells : List (Spec.Val N)) (s : N)
     (hz : ∀ x : N, add x zero = x)
     (hb : ∀ b, Spec.Val.bool b ∉ cells)
     (ht : ∀ t, Spec.Val.text t ∈ cells → (parse t : Option N) = none)
-    (hnan : ∀ x, Spec.Val.num x ∈ cells → isNaN x = false) :
+    (hnan : ∀ x, Spec.Val.num x ∈ cells → isNaN x = false ∧ isInf x = false) :
     (cells.map toCell).foldl Impl.sumStep s = (Spec.numbers cells).foldl add s := by
   induction cells generalizing s with
   | nil => rfl
@@ -1367,7 +1367,7 @@ theorem sumStep_fold {N : Type} [NumOps N] (cells : List (Spec.Val N)) (s : N)
       (fun x h => hnan x (by simp [h]))
     cases v with
     | bool b => exact absurd (by simp) (hb b)
-    | num x => simp [toCell, Impl.sumStep, Spec.numbers, hnan x (by simp), hr]
+    | num x => simp [toCell, Impl.sumStep, Spec.numbers, (hnan x (by simp)).1, (hnan x (by simp)).2, hr]
     | text t => simp [toCell, Impl.sumStep, Spec.numbers, ht t (by simp), hr]
     | blank => simp [toCell, Impl.sumStep, Spec.numbers, hz, hr]
     | err c => simp [toCell, Impl.sumStep, Spec.numbers, hz, hr]
@@ -1379,7 +1379,7 @@ theorem aggregate_fold_sum_partial {N : Type} [NumOps N] (cells : List (Spec.Val
     (hz : ∀ x : N, add x zero = x)
     (hne : ∀ v ∈ cells, NotErr v) (hb : ∀ b, Spec.Val.bool b ∉ cells)
     (ht : ∀ t, Spec.Val.text t ∈ cells → (parse t : Option N) = none)
-    (hnan : ∀ x, Spec.Val.num x ∈ cells → isNaN x = false) :
+    (hnan : ∀ x, Spec.Val.num x ∈ cells → isNaN x = false ∧ isInf x = false) :
     Impl.aggregate .sum (cells.map toCell) = .ok (Impl.mkNum ((Spec.numbers cells).foldl add zero)) ∧
     Spec.aggregate .sum cells = Spec.mkNum ((Spec.numbers cells).foldl add zero) := by
   simp [Impl.aggregate, Spec.aggregate, firstErr_none cells hne, sumStep_fold cells zero hz hb ht hnan]
